@@ -665,7 +665,9 @@ func init() {
 			return true
 		}},
 		// ---- shapes of known findings (weight 0 in the main stream; own probes) ----
-		{"renameFile", "finding", "DS", 0, func(e *editor) bool {
+		// renameFile was the shape of D30 (fixed); it stays in the finding stream so that renames
+		// remain frequent, and is part of the main stream too.
+		{"renameFile", "finding", "DS", 5, func(e *editor) bool {
 			f := e.pickFile()
 			if f == nil {
 				return false
